@@ -16,7 +16,7 @@ FN = 7
 GEN_DEPS = ('builtins',)
 
 NUMS = ['1000', '0.001', '1e-6', '1e3', '2.5', '60', '3600', '0.01', '100', '7', '0.5', '1.5', '12',
-        '1e-9', '1e-12', '1e6', '2', '3', '0.2', '96', '1.1']
+        '1e-9', '1e-12', '1e6', '2', '3', '0.2', '96', '1.1', '1e-15', '1e-18', '1e15', '1e-24', '1e-21', '1e18']
 EXPS = ['2', '3', '-1', '-2', '0.5', '1.5', '-0.5', '1']
 BUILTINS = ['ampere', 'candela', 'kelvin', 'kilogram', 'meter', 'mole', 'second', 'becquerel', 'coulomb',
             'farad', 'gray', 'henry', 'hertz', 'joule', 'lumen', 'lux', 'newton', 'ohm', 'pascal', 'radian',
@@ -146,11 +146,21 @@ def gen_case(seed, tier):
         if name not in known[s] and not (ops[-1][0] == 'add' and 'nosuch' in uexpr_str(ops[-1][3])) \
                 and name not in ('celsius',):
             known[s].append(name)
+    # stratum: several units of ONE dimension with extreme scales (tolerances must be relative, never absolute)
+    if rng.random() < 0.5:
+        basedim = rng.choice(['ampere', 'second', 'metre', 'volt', 'mole'])
+        for nm, sc in rng.sample([('xa', '1e-12'), ('xb', '1e-15'), ('xc', '1e-18'), ('xd', '1e15'), ('xe', '1e18'), ('xf', '1e-24'), ('xg', '1e-21')], 3):
+            if nm not in known[0]:
+                ops.append(['add', 0, nm, ('mul', ('ref', basedim), ('num', sc))])
+                known[0].append(nm)
     # queries: all ordered pairs of a sample of unit terms
     avail = [(s, n) for s in range(nstores) for n in known[s] if n not in BUILTINS or rng.random() < 0.15]
     if not avail:
         avail = [(0, 'metre')]
-    terms = []
+    terms = [('get', 0, n) for n in known[0] if n in ('xa', 'xb', 'xc', 'xd', 'xe', 'xf', 'xg')]
+    if len(terms) >= 2 and rng.random() < 0.5:
+        terms.append(('pow', terms[0], '2'))
+        terms.append(('pow', terms[1], '2'))
     for _ in range(rng.randint(4, 7)):
         s0 = rng.randrange(nstores)
         pool = [a for a in avail if reg_of[a[0]] == reg_of[s0]]
@@ -398,6 +408,161 @@ def base_unit_names(case):
     return names, reg_of
 
 
+# ---- independent reference: exponent vectors computed in Python from the definitions -------------------------
+SI = {'ampere': {-4: 1}, 'candela': {-7: 1}, 'kelvin': {-5: 1}, 'kilogram': {-2: 1}, 'meter': {-1: 1}, 'metre': {-1: 1},
+      'mole': {-6: 1}, 'second': {-3: 1}, 'radian': {-8: 1}, 'dimensionless': {}}
+
+
+def _vm(a, b, sign=1):
+    out = dict(a)
+    for k, e in b.items():
+        out[k] = out.get(k, 0) + sign * e
+    return {k: e for k, e in out.items() if e != 0}
+
+
+def _vp(a, q):
+    return {k: e * q for k, e in a.items() if e * q != 0}
+
+
+def _vnum(fr):
+    out = {}
+    for part, sign in ((fr.numerator, 1), (fr.denominator, -1)):
+        n = part
+        for p in (2, 3, 5, 7, 11, 13, 17, 19, 23):
+            while n % p == 0 and n > 1:
+                out[p] = out.get(p, 0) + sign
+                n //= p
+        if n != 1:
+            return None
+    return out
+
+
+def builtin_vectors():
+    """SI meaning of the CellML built-ins (CellML 1.1 table 2), written independently of the Coq tables"""
+    v = dict(SI)
+    v['gram'] = {-2: 1, 2: -3, 5: -3}
+    v['liter'] = v['litre'] = {-1: 3, 2: -3, 5: -3}
+    v['hertz'] = v['becquerel'] = {-3: -1}
+    v['coulomb'] = {-4: 1, -3: 1}
+    v['newton'] = {-2: 1, -1: 1, -3: -2}
+    v['joule'] = {-2: 1, -1: 2, -3: -2}
+    v['watt'] = {-2: 1, -1: 2, -3: -3}
+    v['pascal'] = {-2: 1, -1: -1, -3: -2}
+    v['volt'] = {-2: 1, -1: 2, -3: -3, -4: -1}
+    v['farad'] = {-2: -1, -1: -2, -3: 4, -4: 2}
+    v['ohm'] = {-2: 1, -1: 2, -3: -3, -4: -2}
+    v['siemens'] = {-2: -1, -1: -2, -3: 3, -4: 2}
+    v['weber'] = {-2: 1, -1: 2, -3: -2, -4: -1}
+    v['tesla'] = {-2: 1, -3: -2, -4: -1}
+    v['henry'] = {-2: 1, -1: 2, -3: -2, -4: -2}
+    v['sievert'] = v['gray'] = {-1: 2, -3: -2}
+    v['katal'] = {-6: 1, -3: -1}
+    v['steradian'] = {-8: 2}
+    v['lumen'] = {-7: 1, -8: 2}
+    v['lux'] = {-7: 1, -8: 2, -1: -2}
+    return {k: {g: Fraction(e) for g, e in d.items()} for k, d in v.items()}
+
+
+def reference_vectors(case):
+    """(store, name) -> vector or None, following the same success rules as the code"""
+    bv = builtin_vectors()
+    reg_of, nreg = [], 0
+    for op in case['ops']:
+        if op[0] == 'new':
+            if op[1] < 0:
+                reg_of.append(nreg)
+                nreg += 1
+            else:
+                reg_of.append(reg_of[op[1]])
+    known = [dict(bv) for _ in reg_of]
+    nbase = {}
+
+    def ev(s, e):
+        t = e[0]
+        if t == 'ref':
+            return known[s].get(e[1])
+        if t == 'num':
+            v = _vnum(frac(e[1]))
+            return None if v is None else {k: Fraction(x) for k, x in v.items()}
+        a = ev(s, e[1])
+        if t == 'pow':
+            return None if a is None else _vp(a, frac(e[2]))
+        b = ev(s, e[2])
+        if a is None or b is None:
+            return None
+        return _vm(a, b, 1 if t == 'mul' else -1)
+    for op in case['ops']:
+        if op[0] == 'add':
+            s, n = op[1], op[2]
+            if n in known[s] or n == 'celsius':
+                continue
+            v = ev(s, op[3])
+            if v is not None:
+                known[s][n] = v
+        elif op[0] == 'base':
+            s, n = op[1], op[2]
+            if n in known[s]:
+                continue
+            r = reg_of[s]
+            g = -100 - nbase.get(r, 0)
+            nbase[r] = nbase.get(r, 0) + 1
+            known[s][n] = {g: Fraction(1)}
+    return known
+
+
+def reference_term(known, t):
+    k = t[0]
+    if k == 'get':
+        return known[t[1]].get(t[2])
+    a = reference_term(known, t[1])
+    if k == 'pow':
+        return None if a is None else _vp(a, frac(t[2]))
+    b = reference_term(known, t[2])
+    if a is None or b is None:
+        return None
+    return _vm(a, b, 1 if k == 'mul' else -1)
+
+
+def reference_oracle(case, impl):
+    """the implementation's base-unit form, factors and equivalences against the reference vectors"""
+    bad = []
+    known = reference_vectors(case)
+
+    def scale(v):
+        x = 1.0
+        for g, e in v.items():
+            if g > 0:
+                x *= float(g) ** float(e)
+        return x
+    for op, r in zip(case['ops'], impl):
+        if r[0] != 'ok':
+            continue
+        if op[0] == 'fmt':
+            v = reference_term(known, op[1])
+            if v is not None and not close(r[1], scale(v)):
+                bad.append(('base-unit scale of %r is %r, the definitions give %r' % (op[1], r[1], scale(v)),
+                            {'term': op[1], 'got': r[1], 'want': scale(v)}))
+        elif op[0] in ('cf', 'eq'):
+            a, b = reference_term(known, op[1]), reference_term(known, op[2])
+            if a is None or b is None:
+                continue
+            d = _vm(a, b, -1)
+            if any(g < 0 and g != -8 for g in d):
+                continue
+            want = scale(d)
+            exact_one = not any(g > 0 for g in d)
+            if op[0] == 'cf':
+                got = 1.0 if r[1] == 'one' else r[1]
+                if not close(got, want):
+                    bad.append(('factor %r -> %r is %r, the definitions give %r' % (op[1], op[2], got, want), {'from': op[1], 'to': op[2]}))
+            else:
+                same_rad = d.get(-8, 0) == 0
+                if same_rad and bool(r[1]) != exact_one:
+                    bad.append(('is_equivalent(%r, %r) is %r, but the ratio of the SI scales is %r' % (op[1], op[2], r[1], want),
+                                {'a': op[1], 'b': op[2]}))
+    return bad
+
+
 # ---- oracle (stage D): the laws on the implementation's own numbers -----------------------------
 def oracle(case, impl):
     """Returns list of (what, detail) violations of C07 on the implementation."""
@@ -492,7 +657,7 @@ def evaluate(ctx, cases, impls, use_model=True):
     for i, (case, impl) in enumerate(zip(cases, impls)):
         kinds = sorted({op[0] for op in case['ops']})
         ctx.count(case_key=case['ops'], nontrivial=len(case['ops']) > 8, kind='stores=%d' % sum(1 for o in case['ops'] if o[0] == 'new'))
-        for what, detail in oracle(case, impl):
+        for what, detail in oracle(case, impl) + reference_oracle(case, impl):
             ctx.violation(what, {'case': case, 'detail': detail})
         if mods is not None:
             names, reg_of = base_unit_names(case)
@@ -540,7 +705,7 @@ def load_corpus():
 def replay(ctx, case):
     c = case.get('case', case)
     impl = run_impl(c)
-    bad = oracle(c, impl)
+    bad = oracle(c, impl) + reference_oracle(c, impl)
     for what, detail in bad:
         ctx.violation(what, {'case': c, 'detail': detail})
     if ctx.model_ok():
